@@ -247,7 +247,8 @@ where
         h = (dny / dnf).sqrt() * 0.01;
     }
 
-    if h > hmax.abs() {
+    // also catches a NaN guess (non-finite derivative at the initial point)
+    if !(h <= hmax.abs()) {
         h = hmax.abs();
     }
     h = h.abs() * posneg.signum();
